@@ -1,4 +1,214 @@
-// C18 histories: filled in below (see DESIGN.md §5 C18)
+// C18 histories: a pool of Regex objects and a sequence of calls with interleaved, partially
+// consumed iterators, executed on shared objects, on fresh objects, and from several threads.
+use crate::{dec, enc, entry, err};
+use regexml::{AnalyzeEntry, Error, Regex};
+use std::collections::HashMap;
+use std::io::BufRead;
+use std::panic::{catch_unwind, AssertUnwindSafe};
+
+fn assert_send_sync<T: Send + Sync>() {}
+
+enum Handle<'a> {
+    Tok(Box<dyn Iterator<Item = String> + 'a>),
+    An(Box<dyn Iterator<Item = AnalyzeEntry> + 'a>),
+    Closed,
+}
+
+fn compile(d: &str, f: &str, p: &str) -> Result<Regex, Error> {
+    if d == "xpath" {
+        Regex::xpath(p, f)
+    } else {
+        Regex::xsd(p, f)
+    }
+}
+
+fn an_entry(e: &AnalyzeEntry) -> String {
+    let mut s = String::from("ent:");
+    match e {
+        AnalyzeEntry::NonMatch(t) => {
+            s.push_str("N(");
+            s.push_str(&enc(t));
+            s.push(')');
+        }
+        AnalyzeEntry::Match(es) => {
+            s.push_str("M(");
+            for x in es {
+                entry(&mut s, x);
+            }
+            s.push(')');
+        }
+    }
+    s
+}
+
+// run the whole history; `get` yields the regex to use for pool index i (shared or fresh)
+fn run_history<'a>(
+    ops: &[Vec<String>],
+    get: &dyn Fn(usize) -> &'a Result<Regex, Error>,
+) -> Vec<(String, String)> {
+    let mut out = Vec::new();
+    let mut handles: HashMap<usize, Handle<'a>> = HashMap::new();
+    for op in ops {
+        let k = op[1].clone();
+        let res = match op[0].as_str() {
+            "m" => match get(op[2].parse().unwrap()) {
+                Err(e) => format!("C:{}", err(e)),
+                Ok(re) => {
+                    let inp = dec(&op[3]);
+                    match catch_unwind(AssertUnwindSafe(|| re.is_match(&inp))) {
+                        Ok(true) => "1".into(),
+                        Ok(false) => "0".into(),
+                        Err(_) => "PANIC".into(),
+                    }
+                }
+            },
+            "r" => match get(op[2].parse().unwrap()) {
+                Err(e) => format!("C:{}", err(e)),
+                Ok(re) => {
+                    let (inp, rep) = (dec(&op[3]), dec(&op[4]));
+                    match catch_unwind(AssertUnwindSafe(|| re.replace_all(&inp, &rep))) {
+                        Ok(Ok(s)) => format!("ok:{}", enc(&s)),
+                        Ok(Err(e)) => err(&e).to_string(),
+                        Err(_) => "PANIC".into(),
+                    }
+                }
+            },
+            "T" | "A" => {
+                let h: usize = op[4].parse().unwrap();
+                match get(op[2].parse().unwrap()) {
+                    Err(e) => {
+                        handles.insert(h, Handle::Closed);
+                        format!("C:{}", err(e))
+                    }
+                    Ok(re) => {
+                        let inp = dec(&op[3]);
+                        if op[0] == "T" {
+                            match catch_unwind(AssertUnwindSafe(|| re.tokenize(&inp))) {
+                                Ok(Ok(it)) => {
+                                    handles.insert(h, Handle::Tok(Box::new(it)));
+                                    "open".into()
+                                }
+                                Ok(Err(e)) => {
+                                    handles.insert(h, Handle::Closed);
+                                    format!("ERR:{}", err(&e))
+                                }
+                                Err(_) => {
+                                    handles.insert(h, Handle::Closed);
+                                    "PANIC".into()
+                                }
+                            }
+                        } else {
+                            match catch_unwind(AssertUnwindSafe(|| re.analyze(&inp))) {
+                                Ok(Ok(it)) => {
+                                    handles.insert(h, Handle::An(Box::new(it)));
+                                    "open".into()
+                                }
+                                Ok(Err(e)) => {
+                                    handles.insert(h, Handle::Closed);
+                                    format!("ERR:{}", err(&e))
+                                }
+                                Err(_) => {
+                                    handles.insert(h, Handle::Closed);
+                                    "PANIC".into()
+                                }
+                            }
+                        }
+                    }
+                }
+            }
+            "N" => {
+                let h: usize = op[2].parse().unwrap();
+                match handles.get_mut(&h) {
+                    None | Some(Handle::Closed) => "closed".into(),
+                    Some(Handle::Tok(it)) => match catch_unwind(AssertUnwindSafe(|| it.next())) {
+                        Ok(Some(t)) => format!("tok:{}", enc(&t)),
+                        Ok(None) => "none".into(),
+                        Err(_) => "PANIC".into(),
+                    },
+                    Some(Handle::An(it)) => match catch_unwind(AssertUnwindSafe(|| it.next())) {
+                        Ok(Some(e)) => an_entry(&e),
+                        Ok(None) => "none".into(),
+                        Err(_) => "PANIC".into(),
+                    },
+                }
+            }
+            "D" => {
+                let h: usize = op[2].parse().unwrap();
+                handles.remove(&h);
+                "dropped".into()
+            }
+            _ => "?".into(),
+        };
+        out.push((k, res));
+    }
+    out
+}
+
 pub fn run() {
-    unimplemented!()
+    assert_send_sync::<Regex>();
+    let mode = std::env::args().nth(2).unwrap_or_else(|| "shared".into());
+    let mut defs: Vec<(String, String, String)> = Vec::new();
+    let mut ops: Vec<Vec<String>> = Vec::new();
+    for line in std::io::stdin().lock().lines() {
+        let line = line.unwrap();
+        if line.is_empty() {
+            continue;
+        }
+        let f: Vec<String> = line.split('\t').map(|s| s.to_string()).collect();
+        if f[0] == "R" {
+            defs.push((f[2].clone(), dec(&f[3]), dec(&f[4])));
+        } else {
+            ops.push(f);
+        }
+    }
+    let results = match mode.as_str() {
+        "shared" => {
+            let pool: Vec<Result<Regex, Error>> =
+                defs.iter().map(|(d, f, p)| compile(d, f, p)).collect();
+            run_history(&ops, &|i| &pool[i])
+        }
+        "fresh" => {
+            // every use compiles a fresh object (leaked so that iterators may borrow it)
+            let defs2 = defs.clone();
+            let getter = move |i: usize| -> &'static Result<Regex, Error> {
+                let (d, f, p) = &defs2[i];
+                Box::leak(Box::new(compile(d, f, p)))
+            };
+            run_history(&ops, &getter)
+        }
+        "threads" => {
+            let pool: Vec<Result<Regex, Error>> =
+                defs.iter().map(|(d, f, p)| compile(d, f, p)).collect();
+            let barrier = std::sync::Barrier::new(8);
+            let all: Vec<Vec<(String, String)>> = std::thread::scope(|sc| {
+                let hs: Vec<_> = (0..8)
+                    .map(|_| {
+                        sc.spawn(|| {
+                            barrier.wait();
+                            run_history(&ops, &|i| &pool[i])
+                        })
+                    })
+                    .collect();
+                hs.into_iter().map(|h| h.join().unwrap()).collect()
+            });
+            let mut first = all[0].clone();
+            for other in &all[1..] {
+                for (a, b) in first.iter_mut().zip(other.iter()) {
+                    if a.1 != b.1 && !a.1.starts_with("THREAD-MISMATCH") {
+                        a.1 = format!("THREAD-MISMATCH:{}|{}", a.1, b.1);
+                    }
+                }
+            }
+            first
+        }
+        _ => panic!("mode"),
+    };
+    let mut out = String::new();
+    for (k, r) in results {
+        out.push_str(&k);
+        out.push('\t');
+        out.push_str(&r);
+        out.push('\n');
+    }
+    print!("{}", out);
 }
